@@ -24,6 +24,7 @@ The tie between this model and the Go code is the correspondence run (`./check C
 import Lemmas.Table
 import Lemmas.TableSel
 import Lemmas.TableInfo
+import Lemmas.TableAdj
 
 namespace C02T
 open Tbl
@@ -255,6 +256,35 @@ theorem path_listings_exact {π : Type} (O : DestOps δ ρ) (h : Pfx → Nat) (o
     · rintro ⟨d, hd, hx⟩
       exact ⟨(p, d), by rw [mem_entries_iff hw, ha]; exact hd, List.mem_map.mpr ⟨x, hx, rfl⟩⟩
 
+/-! ### partial operations on a multi-family Adj-RIB-In (`AdjRib.Drop / StaleAll / DropStale (rfList)`) -/
+
+/-- **Granularity**: an operation on a subset of the families leaves every OTHER family's table
+and accepted counter exactly as they were. -/
+theorem partial_adj_ops_leave_other_families (h : Pfx → Nat) (fams : List Nat) (a : AdjRibM) (f : Nat)
+    (hf : f ∉ fams) :
+    (adjRibDrop fams a).fam f = a.fam f ∧
+    (adjRibStaleAll fams a).fam f = a.fam f ∧
+    (adjRibDropStale h fams a).fam f = a.fam f :=
+  ⟨adjOn_other fams _ a f hf, adjOn_other fams _ a f hf, adjOn_other fams _ a f hf⟩
+
+/-- … and on a family that IS named: `Drop` starts over (empty table, counter 0); `StaleAll` keeps
+the counter and every destination, each path marked stale; `DropStale` is a sequence of
+`adj.Update` withdrawals (the bucket invariant survives; the counter moves by the deltas of those
+withdrawals).  Which paths a destination loses in `DropStale` is decided inside the destination
+(C02's Adj-RIB-In part) and sampled by the correspondence run. -/
+theorem partial_adj_ops_on_named_families (h : Pfx → Nat) (fams : List Nat) (a : AdjRibM) (f : Nat)
+    (hf : f ∈ fams) (t : Dests TDest) (acc : Int) (ha : a.fam f = some (t, acc)) (hw : WF h t) :
+    (adjRibDrop fams a).fam f = some ([], 0) ∧
+    (∃ t', (adjRibStaleAll fams a).fam f = some (t', acc) ∧ WF h t' ∧
+      ∀ p, get h t' p =
+        (get h t p).map (fun d => { d with paths := d.paths.map (fun x => { x with stale := true }) })) ∧
+    (∃ t', (adjRibDropStale h fams a).fam f = some (t', acc + (adjDropStale h t).2) ∧ WF h t') := by
+  refine ⟨?_, ⟨adjStaleAll t, ?_, mapDests_wf _ hw, fun p => mapDests_get _ h t p⟩,
+    ⟨(adjDropStale h t).1, ?_, adjDropStale_wf hw⟩⟩
+  · unfold adjRibDrop; rw [adjOn_named fams _ a f hf, ha]; rfl
+  · unfold adjRibStaleAll; rw [adjOn_named fams _ a f hf, ha]; rfl
+  · unfold adjRibDropStale; rw [adjOn_named fams _ a f hf, ha]; rfl
+
 /-! ### non-vacuity: concrete colliding histories, evaluated by the kernel -/
 
 section Examples
@@ -268,7 +298,8 @@ def hConst : Pfx → Nat := fun _ => 7
 /-- nothing collides (on these prefixes) -/
 def hLen : Pfx → Nat := fun p => p.bits.foldl (fun a b => 2 * a + (if b then 2 else 1)) 0
 
-def ann (src rid rank tag : Nat) : TOp := .ann ⟨src, rid, rank, tag, 0, false⟩
+def ann (src rid rank tag : Nat) : TOp :=
+  .ann { src := src, rid := rid, rank := rank, tag := tag, lid := 0, rej := false, addr := src }
 
 /-- both prefixes announced: ONE bucket with a chain of two under the constant hash … -/
 example : (run locOps hConst [(p1, ann 1 0 10 1), (p2, ann 2 0 20 2)]).map (fun kc => (kc.1, kc.2.length)) = [(7, 2)] := by
@@ -332,6 +363,32 @@ the same destinations although their bucket shapes differ -/
 example :
     (entries tEx).length = 4 ∧ tEx.length = 1 ∧
     (run locOps hLen [(p1, ann 1 0 10 1), (p2, ann 2 0 20 2), (p0, ann 2 0 30 3), (p10, ann 2 0 40 4)]).length = 4 := by
+  decide
+
+/-- a three-family Adj-RIB-In; family 4 (two accepted paths) is marked stale and swept, family 6
+is dropped, family 14 is not named: it keeps its table and its counter 1; family 4 ends at 0 -/
+def aEx : AdjRibM :=
+  [(4, (run adjOps hConst [(p1, ann 1 0 10 1), (p2, ann 1 1 20 2)], 2)),
+   (6, (run adjOps hConst [(p1, ann 1 0 30 3)], 1)),
+   (14, (run adjOps hConst [(p2, ann 1 0 40 4)], 1))]
+
+example : (adjRibDropStale hConst [4] (adjRibDrop [6] (adjRibStaleAll [4] aEx))).fam 6 = some ([], 0) := by
+  decide
+example : (adjRibDropStale hConst [4] (adjRibDrop [6] (adjRibStaleAll [4] aEx))).fam 4 = some ([], 0) := by
+  decide
+example : (adjRibDropStale hConst [4] (adjRibDrop [6] (adjRibStaleAll [4] aEx))).fam 14 = aEx.fam 14 := by
+  rw [(partial_adj_ops_leave_other_families hConst [4] _ 14 (by decide)).2.2,
+      (partial_adj_ops_leave_other_families hConst [6] _ 14 (by decide)).1,
+      (partial_adj_ops_leave_other_families hConst [4] _ 14 (by decide)).2.1]
+/-- hypotheses of `partial_adj_ops_on_named_families` are satisfiable -/
+example : aEx.fam 4 = some (run adjOps hConst [(p1, ann 1 0 10 1), (p2, ann 1 1 20 2)], 2) ∧
+    WF hConst (run adjOps hConst [(p1, ann 1 0 10 1), (p2, ann 1 1 20 2)]) :=
+  ⟨rfl, run_wf adjOps hConst _⟩
+/-- a path announced again after `StaleAll` is fresh and survives the sweep -/
+example :
+    ((adjRibDropStale hConst [4]
+        (adjOn [4] (fun x => (update adjOps hConst x.1 p1 (ann 1 0 50 5), x.2)) (adjRibStaleAll [4] aEx))).fam 4).map
+      (fun x => ((entries x.1).map (fun e => e.2.paths.length), x.2)) = some ([1], 1) := by
   decide
 
 end Examples
